@@ -43,7 +43,8 @@ def _case(draw):
                 for _ in range(2)]
     return {'spec': spec, 'ncc': draw(st.integers(2, 12)), 'explicit': explicit,
             'scaling': draw(st.sampled_from([None, None, 2.0])),
-            'default_thr': draw(st.sampled_from([None, None, 0.5, 0.3]))}
+            'default_thr': draw(st.sampled_from([None, None, 0.5, 0.3])),
+            'cfg': draw(st.sampled_from(['instance', 'subclass']))}
 
 
 def _many_channel_cases(th):
@@ -117,12 +118,22 @@ def check(case):
     info = {'thr_removed': False, 'big_multi_shank': False, 'sparse_both': False}
     with env.scratch() as d:
         T = D.build(spec, d / 'ds')
-        m = D.load(T, must_return)
+        if case.get('cfg') == 'subclass':
+            # neighbourhood size and default threshold configured on a subclass
+            from phylib.io.model import TemplateModel, get_template_params
+            attrs = {'n_closest_channels': case['ncc']}
+            if case.get('default_thr') is not None:
+                attrs['amplitude_threshold'] = case['default_thr']
+            Model = type('Model', (TemplateModel,), attrs)
+            m = must_return('TemplateModel()', lambda: Model(**get_template_params(T.params_path)))
+        else:
+            m = D.load(T, must_return)
         try:
-            m.n_closest_channels = case['ncc']
+            if case.get('cfg') != 'subclass':
+                m.n_closest_channels = case['ncc']
             if case['scaling']:
                 m.template_scaling = case['scaling']
-            if case.get('default_thr') is not None:
+            if case.get('default_thr') is not None and case.get('cfg') != 'subclass':
                 m.amplitude_threshold = case['default_thr']     # the model's default threshold
             scal = case['scaling'] or 1.0
             wmi = D.wmi_of(T)
@@ -241,6 +252,7 @@ def classify(case, info):
         labels.append('integer-valued (amplitude ties)')
     if case['scaling']:
         labels.append('template_scaling')
+    labels.append('configured-on:' + case.get('cfg', 'instance'))
     if s['templates'].get('scale', 1.0) != 1.0:
         labels.append('waveform-units:%g' % s['templates']['scale'])
     if any(s['templates'].get('faint_cols') or []):
